@@ -155,7 +155,7 @@ func init() { run.ReclaimHook = eng.ReclaimLeakedMaps }
 func init() {
 	// ------------------------------------------------------------ C01
 	registerSteered(steeredProfile{
-		prop: "C01", quick: 480, thorough: 9600,
+		prop: "C01", quick: 960, thorough: 14400,
 		rule: "steered programs (seeded): 3-30 batches of Set/Del over a dense hostile key universe interleaved with directed merger cycles (plain/mergeAll/idle), persister rounds, parks at intermediate hook points and reopens; after EVERY step a fresh Snapshot is compared with the reference map by Get (nil-ness exact) and by full iteration. distinct_nontrivial = distinct (configuration class | section shape top/mid/base/clean/lower-level | park point) triples at which a comparison ran.",
 		oracles: eng.Oracles{Content: true},
 		gen: func(r *eng.Rng, idx int, th bool) *eng.Program {
@@ -198,7 +198,7 @@ func init() {
 	})
 	// ------------------------------------------------------------ C02
 	registerSteered(steeredProfile{
-		prop: "C02", quick: 400, thorough: 8000,
+		prop: "C02", quick: 800, thorough: 12000,
 		rule: "steered programs that open collection snapshots, store snapshots, child snapshots and partially advanced iterators (up to 6 at once) at arbitrary points, then keep running batches, merger cycles, persister rounds, partial and full compactions, Collection.Close and Store.Close; after EVERY later step every open handle is re-read in full (iteration + Get of each universe key, memory faults trapped) against the model copy taken when it was opened; iterators are continued to their end and re-seeked at program end. distinct_nontrivial = distinct (handle kind | events outlived: compaction/unlink/collection close/store close | configuration class) triples for which a re-read happened.",
 		oracles: eng.Oracles{Frozen: true, Content: true},
 		gen: func(r *eng.Rng, idx int, th bool) *eng.Program {
@@ -219,7 +219,7 @@ func init() {
 
 	// ------------------------------------------------------------ C04
 	registerSteered(steeredProfile{
-		prop: "C04", quick: 400, thorough: 8000,
+		prop: "C04", quick: 640, thorough: 9600,
 		rule: "steered store-backed programs with child collections, empty values and deletions; close+reopen at chosen points: caught-up (3 directed merger+persister iterations after the last batch, then Close), early (Close right where the program is, including with merger/persister parked), mid (Close called while the persister is parked inside Store.persist/compact at a store.* hook; gates open only after Close has signalled stop); the reopened tree's canonical hash is looked up in the table of prefix states: caught-up => exactly all batches, otherwise some prefix >= what the store had exposed. distinct_nontrivial = distinct (reopen kind, batches lost) pairs plus (config class|shape|park) triples.",
 		oracles: eng.Oracles{Content: true, Reopen: true, Store: true},
 		gen: func(r *eng.Rng, idx int, th bool) *eng.Program {
@@ -247,7 +247,7 @@ func init() {
 
 	// ------------------------------------------------------------ C07
 	registerSteered(steeredProfile{
-		prop: "C07", quick: 400, thorough: 8000,
+		prop: "C07", quick: 640, thorough: 9600,
 		rule: "steered store-backed programs over all compaction concerns (disable / allow with LevelMaxSegments 1-4, multiplier 2-9, percentage 0.01-0.99 / force) and idle cycles, with overwrites, deletions and child collections; after every completed persistence round the store's own snapshot must equal the reference content of a non-decreasing prefix, the collection must equal the full reference content; after every round that advanced total_compactions (full) the store must show no deletion marker, no repeated key, nothing at segment level >= 1 and num_segments <= 1, recursively in children; at the end, after quiescence, the directory must hold exactly one data file. distinct_nontrivial = distinct (segments before, round kind append/partial/full/noop, segments after) triples = splice points exercised, plus shapes.",
 		oracles: eng.Oracles{Content: true, Store: true, Dir: true},
 		gen: func(r *eng.Rng, idx int, th bool) *eng.Program {
@@ -286,7 +286,7 @@ func init() {
 
 	// ------------------------------------------------------------ C10
 	registerSteered(steeredProfile{
-		prop: "C10", quick: 480, thorough: 9600,
+		prop: "C10", quick: 960, thorough: 14400,
 		rule: "steered programs (Set/Del/Merge, empty key, empty values) over all backings; after every step, for every top-level universe key, Collection.Get, Collection.Get(NoCopyValue), Snapshot.Get, Snapshot.Get(NoCopyValue) and the iterator entry of a fresh snapshot must agree (nil-ness and bytes); values from copying Gets are re-checked after snapshot, collection and store are closed. distinct_nontrivial = distinct (config class|shape|park) triples at which the comparison ran.",
 		oracles: eng.Oracles{Paths: true},
 		gen: func(r *eng.Rng, idx int, th bool) *eng.Program {
@@ -307,7 +307,7 @@ func init() {
 
 	// ------------------------------------------------------------ C11
 	registerSteered(steeredProfile{
-		prop: "C11", quick: 480, thorough: 9600,
+		prop: "C11", quick: 800, thorough: 12000,
 		rule: "steered programs over child names {A,B,C} x nested {X,Y}: creation by empty child batch, child-only batches, writes, DelChildCollection, recreation in a later batch (a third of the programs with a merge operator: recreation with Merge operands on the predecessor's keys while its data is still in the dirty sections), delete-only batches, nested children, under every placement of merger/persister/compaction/reopen and all compaction concerns; after every step the whole tree seen through ChildCollectionNames/ChildCollectionSnapshot (collection level; store level after each round; after reopen) is compared with the model tree. distinct_nontrivial = distinct (config class|shape|park) triples visited while children existed plus round kinds.",
 		oracles: eng.Oracles{Content: true, Reopen: true, Store: true},
 		gen: func(r *eng.Rng, idx int, th bool) *eng.Program {
@@ -326,7 +326,7 @@ func init() {
 
 	// ------------------------------------------------------------ C13
 	registerSteered(steeredProfile{
-		prop: "C13", quick: 1440, thorough: 28800,
+		prop: "C13", quick: 4800, thorough: 96000,
 		rule: "steered programs (Set/Del/Merge, top-level keys) against a map-backed application lower level that applies each `higher` snapshot by the documented protocol (iterate IncludeDeletions+SkipLowerLevel, resolve Merge with higher.Get); LowerLevelUpdate failure plans (single, bursts, alternating) fail before applying; after every step the lower level must equal the reference content of a non-decreasing prefix and the collection snapshot the full reference content; after draining the lower level must equal the full reference content. distinct_nontrivial = distinct prefix gaps accepted by the lower level plus (config class|shape|park) triples.",
 		oracles: eng.Oracles{Content: true, Lower: true},
 		gen: func(r *eng.Rng, idx int, th bool) *eng.Program {
@@ -360,7 +360,7 @@ func init() {
 
 	// ------------------------------------------------------------ C15
 	registerSteered(steeredProfile{
-		prop: "C15", quick: 400, thorough: 8000,
+		prop: "C15", quick: 800, thorough: 12000,
 		rule: "steered store-backed programs with handles of every kind (collection snapshots, child snapshots, iterators, store snapshots) opened and closed at arbitrary points relative to persistence, partial/full compaction, idle cycles, Collection.Close and Store.Close; every handle is re-read after every step (faults trapped); after everything is closed and the process is quiescent (no moss goroutine runnable, no pending asynchronous unlink) /proc/self/fd and /proc/self/maps must not mention the (unique) store directory and the directory must hold exactly one data file. distinct_nontrivial = distinct (handle kind | events outlived | config class) triples re-read plus release checks by child/no-child.",
 		oracles: eng.Oracles{Frozen: true, Dir: true},
 		gen: func(r *eng.Rng, idx int, th bool) *eng.Program {
@@ -385,7 +385,7 @@ func init() {
 
 	// ------------------------------------------------------------ C20
 	registerSteered(steeredProfile{
-		prop: "C20", quick: 480, thorough: 9600,
+		prop: "C20", quick: 960, thorough: 14400,
 		rule: "steered programs incl. child-only and delete-only batches with mossStore and a custom lower level, CachePersisted on/off; Collection.Stats() sampled after every step; whenever CurDirtyOps=CurDirtyBytes=CurDirtySegments=0 with n>0 batches executed and none in flight, the lower level's own content (Store.Snapshot() / the application map) must equal the full reference content; conversely after 3 directed merger+persister iterations the gauges must be zero. distinct_nontrivial = distinct (config class|shape|park) triples sampled with zero gauges and n>0.",
 		oracles: eng.Oracles{Gauges: true},
 		gen: func(r *eng.Rng, idx int, th bool) *eng.Program {
